@@ -102,6 +102,7 @@ TOKEN_RE = re.compile(r"""
  | (?P<lp>\()
  | (?P<rp>\))
  | (?P<sep>[ \t]*\+[ \t]*|[ \t]+)
+ | @(?P<dens>(?:(?:0|[1-9][0-9]*)?\.[0-9]+)|(?:[1-9][0-9]*\.?))(?P<dkind>[ni]?)
 """, re.X)
 
 
@@ -132,8 +133,11 @@ def lex(s):
             toks.append({"t": "lp"})
         elif g == "rp":
             toks.append({"t": "rp"})
+        elif g in ("dens", "dkind"):
+            txt = m.group("dens")
+            toks.append({"t": "dens", "v": dec.to_dec(txt if not txt.startswith(".") else "0" + txt), "kind": m.group("dkind") or "i"})
         else:
-            toks.append({"t": "sep"})
+            toks.append({"t": "sep", "plus": "+" in m.group("sep")})
         i = m.end()
     return toks
 
@@ -337,3 +341,24 @@ def _owner_name(a):
     base = a.element if core.ision(a) else a
     el = base.element if core.isisotope(base) else base
     return el.table
+
+
+def observe_parse(arg):
+    """Arbitrary strings through formula(): tokens + what the code made of them."""
+    import periodictable as P
+    out = []
+    for it in arg["items"]:
+        s = it["s"]
+        ev = {"id": it["id"], "toks": lex(s)}
+        try:
+            f = P.formula(s)
+            ev["res"] = {"atoms": [dict(zip(("z", "a", "q"), key(a)), c=dec.to_dec(c)) for a, c in f.atoms.items()],
+                         "density": dec.enc(f.density)}
+            try:
+                ev["res"]["natural_density"] = dec.enc(f.natural_density) if f.density is not None else {"k": "none"}
+            except Exception:
+                ev["res"]["natural_density"] = {"k": "none"}
+        except Exception as e:
+            ev["res"] = {"exc": type(e).__name__}
+        out.append(ev)
+    return out
